@@ -461,6 +461,10 @@ namespace occa {
     const dim_t bytes = entries * dtype.bytes();
     OCCA_ERROR("Trying to allocate negative bytes (" << bytes << ")",
                bytes >= 0);
+    // Refuse the dtype before allocating: setDtype would raise after the buffer exists,
+    // and releasing that buffer subtracts bytes that were never added to the device's count
+    OCCA_ERROR("Memory dtype [" << dtype.name() << "] must be registered",
+               dtype.isRegistered());
 
     occa::json memProps = memoryProperties(props);
 
